@@ -9,7 +9,7 @@ for P in "$@"; do
   rc=$?
   echo "== $P exit=$rc  $(grep -c '^VIOLATION' /tmp/try_$P.out) violation lines; first: $(grep '^VIOLATION' /tmp/try_$P.out | head -1)"
 done
-git -C /repo checkout -- .
+git -C /repo checkout -- . ; git -C /repo clean -fdq
 # the evidence files just written describe the changed tree: put the committed ones back
 git -C /verif checkout -- evidence 2>/dev/null
 git -C /repo status --short | head -3
